@@ -40,6 +40,8 @@ class FsMixin:
             p = SVal(KPath, p.t[1:])        # callers have tested `is None` / truthiness before
         if isinstance(p, SVal) and p.kind == KPath:
             return p.t[0], p.t[1]
+        if isinstance(p, str) and p == '':
+            return z3.IntVal(0), z3.IntVal(0)        # the empty path: names nothing (atoms of real names are > 0)
         if isinstance(p, TupleVal) and len(p.items) == 2:
             return lift(p.items[0], KName).z, lift(p.items[1], KName).z
         raise CheckerError('not a (dir, name) path: %r' % (p,))
@@ -50,7 +52,15 @@ class FsMixin:
 
     # ---- os.path
     def b_os_path_join(self, st, fr, args, kw):
+        if len(args) > 2:
+            return self.b_os_path_join(st, fr, [self.b_os_path_join(st, fr, args[:-1], kw), args[-1]], kw)
         d, n = args
+        if isinstance(d, str) and d == '':
+            d = SVal(KName, [z3.IntVal(0)])
+        if isinstance(d, SVal) and d.kind == KPath:
+            # a directory below a (dir, name) path: an atom that is a function of that path
+            sub = z3.Function('fs_subdir', I, I, I)
+            d = SVal(KName, [sub(d.t[0], d.t[1])])
         if isinstance(d, SVal) and d.kind == KStr and 'cp' in self.reg.ufuncs:
             # joining onto a ZooKeeper path (a string): the child-path function of the contract module
             return SVal(KStr, [self.reg.ufuncs['cp'][0](d.z, self.str_term(n))])
@@ -59,6 +69,8 @@ class FsMixin:
     def b_os_path_basename(self, st, fr, args, kw):
         if isinstance(args[0], SVal) and args[0].kind == KName:
             return args[0]          # a name holds no '/': it is its own base name
+        if isinstance(args[0], str) and args[0] == '':
+            return SVal(KName, [z3.IntVal(0)])
         d, n = self.as_path(st, args[0])
         return SVal(KName, [n])
 
@@ -118,6 +130,39 @@ class FsMixin:
             self.fs_set(s, FS_KIND, d, n, z3.IntVal(0))
             return None
         return self.fork_errno(st, present, ok, ENOENT)
+
+    def b_os_replace(self, st, fr, args, kw):
+        """rename(2): the destination name takes over the source entry (replacing whatever it held), the source name
+        is gone; ENOENT if the source does not exist.  One atomic step."""
+        sd, sn = self.as_path(st, args[0])
+        d, n = self.as_path(st, args[1])
+        present = self.fs_get(st.heap, FS_KIND, sd, sn) != 0
+
+        def ok(s):
+            vals = [(key, self.fs_get(s.heap, key, sd, sn)) for key in (FS_KIND, FS_TDIR, FS_TNAME, FS_CONTENT)]
+            self.fs_set(s, FS_KIND, sd, sn, z3.IntVal(0))
+            for key, v in vals:
+                self.fs_set(s, key, d, n, v)
+            return None
+        return self.fork_errno(st, present, ok, ENOENT)
+
+    b_os_rename = b_os_replace
+
+    def b_tempfile_mktemp(self, st, fr, args, kw):
+        """tempfile.mktemp(prefix=, dir=): some name that does not exist in `dir` (hidden when the prefix starts with a
+        dot and the contract module declares fs_hidden)."""
+        d = self.coerce_to(st, kw['dir'], KName).z
+        t = z3.Int(fresh_name('tmpname'))
+        st.assume(t > 0)
+        st.assume(self.fs_get(st.heap, FS_KIND, d, t) == 0)
+        hidden = self.reg.ufuncs.get('fs_hidden')
+        if hidden is not None and isinstance(kw.get('prefix'), str) and kw['prefix'].startswith('.'):
+            st.assume(hidden[0](t))
+        return SVal(KPath, [d, t])
+
+    def b_os_path_islink(self, st, fr, args, kw):
+        d, n = self.as_path(st, args[0])
+        return SB(self.fs_get(st.heap, FS_KIND, d, n) == 2)
 
     def b_os_stat(self, st, fr, args, kw):
         """stat follows a symbolic link (one level)."""
